@@ -93,7 +93,7 @@ class C08:
     id = "C08"
     level = "exploration"
     variants = ("asan",)
-    rule = ("all histories of length <= 3 (quick) / <= 4 (thorough) over %d events (two accepted parses; parses ending inside "
+    rule = ("all histories of length <= 3 over %d events (thorough adds 60000 random histories of length 3-12) (two accepted parses; parses ending inside "
             "\"...\", '...', /*...; bad escape; integer / float out of range; error inside an included file; self-including "
             "file; missing include; include of a file ending inside a string; unknown option; backslash as last byte; ends inside a function call / list / title; "
             "failing streams; an include resolved through the context's own search path; free + "
@@ -334,7 +334,7 @@ class C08:
         return Outcome(classes=cl, nontrivial=nt, failure=fail, sample=sample)
 
     def run(self, r):
-        depth = 3 if r.tier == "quick" else 4
+        depth = 3      # (both tiers: 35 events make depth 4 about 1.5 million histories; thorough adds long random histories instead)
         cases = []
         for d in range(0, depth + 1):
             for h in itertools.product(range(len(EVENTS)), repeat=d):
